@@ -363,6 +363,37 @@ def run(F, chk):
                    "serialised but not (or doubly, or only conditionally) enumerated designates another block after a sort")
     chk.floor("R4.6", 600)
 
+    # ------------------------------------------------------------------ R4.8
+    R8 = chk.rule("R4.8", "the counter that hands out new block positions (SortState::newIndex) starts at zero and only ever counts up by "
+                          "one: no function assigns it — a sort that starts the counter at a block's old number (the root of a model "
+                          "whose root is not block 0) hands out positions past the end of the block list, so the order given to "
+                          "SetBlockOrder is no permutation")
+    n8 = 0
+    for fn in sorted(F.fns.values(), key=lambda f: f["id"]):
+        if not fn.get("body") or fn.get("tmpl") == "pattern" or not (fn.get("file") or "").startswith(("src/", "include/")):
+            continue
+        for n in walk(fn["body"]):
+            tgt = None
+            if n["k"] == "Unary" and n["op"] in ("++", "--"):
+                tgt, how = n["e"], n["op"]
+            elif n["k"] == "Assign":
+                tgt, how = n["l"], n["op"]
+            else:
+                continue
+            while is_node(tgt) and tgt["k"] == "Cast":
+                tgt = tgt["e"]
+            if not (is_node(tgt) and tgt["k"] == "Member" and tgt.get("name") == "newIndex" and "SortState" in (tgt.get("owner") or "")):
+                continue
+            n8 += 1
+            ok = how == "++"
+            chk.instance(R8, ok=ok, sample={"fn": fn["name"], "op": how, "at": n.get("loc")})
+            if not ok:
+                chk.violation("R4.8", "C04/R4.8:%s" % fn["name"].split("(")[0], where(fn, n),
+                              "%s sets the position counter of the sort with `%s` instead of letting it count up from zero: the new "
+                              "order handed to SetBlockOrder is not a permutation of the block list (positions past its end, slots "
+                              "left empty)" % (fn["name"], show(n)))
+    chk.floor(R8, 3)
+
     # ------------------------------------------------------------------ R4.7
     chk.share(F, "c15", ["R15.3"], "R4.7",
               "a block is given its place in the new order once: every recursive step of the sort (SetSortIndices and the Sort* "
